@@ -1,6 +1,6 @@
 (* C19 — the classical sampler has the Boltzmann distribution as stationary law. *)
 From Coq Require Import List QArith ZArith NArith Bool Arith Reals.
-From QmcV Require Import Model.Prog Model.Sse Model.Classical Proofs.ClassicalProofs Proofs.BoltzmannR.
+From QmcV Require Import Model.Prog Model.Sse Model.Classical Proofs.ClassicalProofs Proofs.BoltzmannR Proofs.ProgSafety Proofs.WormProofs.
 Import ListNotations.
 
 (* the energy change computed by the single-spin move is exactly E(after) - E(before), for every
@@ -50,6 +50,28 @@ Theorem C19_move_detailed_balance : forall beta q E E' : R,
    = exp (- (beta * E')) * (q * Rmin 1 (exp (- (beta * (E - E'))))))%R.
 Proof. exact move_balance_R. Qed.
 Print Assumptions C19_move_detailed_balance.
+
+(* ---------------- the worm move: the property's full statement is FALSE of the faithful model ----------------
+   (known finding "worm"; the transcription of do_worm_flip is replayed on the raw tape by check C19) *)
+Theorem C19_worm_refuted :
+  exists (g : cgraph) (s s' : state),
+    (energy g s < energy g s')%Q
+    /\ forall acc beta, (mass (fun x => bools_eqb x s') (denote (worm_move acc g beta s)) == 1)%Q.
+Proof. exact worm_refuted. Qed.
+Print Assumptions C19_worm_refuted.
+
+(* ... and a kernel reversible w.r.t. exp(-beta E) cannot move to a higher energy with probability 1 *)
+Theorem C19_reversible_cannot_go_uphill_surely : forall beta E E' p : R,
+  (0 < beta)%R -> (E < E')%R -> (0 <= p <= 1)%R ->
+  (exp (- (beta * E)) * 1 <> exp (- (beta * E')) * p)%R.
+Proof. exact reversible_cannot_go_uphill_surely. Qed.
+Print Assumptions C19_reversible_cannot_go_uphill_surely.
+
+(* what the worm move does keep, for every sequence of draws: the number of spins *)
+Theorem C19_worm_keeps_spin_count : forall acc g beta s,
+  all_out (fun s' => length s' = length s) (worm_move acc g beta s).
+Proof. exact worm_keeps_spin_count. Qed.
+Print Assumptions C19_worm_keeps_spin_count.
 
 Example C19_ex_triangle :
   let g := mkCGraph [(0%nat, 1%nat, 1%Q); (1%nat, 2%nat, 1%Q); (2%nat, 0%nat, 1%Q); (0%nat, 1%nat, (-(1 # 2))%Q)] [(1 # 4)%Q; 0%Q; (-(1 # 2))%Q] in
